@@ -191,6 +191,20 @@ def plan(tier, seed):
         for f in numeric:
             devs = [dev("img0", "file_descriptor", g, "4".rjust(g["w"]).encode()) for g in numeric if g["key"] != f["key"]] + [dev("img0", "file_descriptor", f, b" " * f["w"])]
             cases.append({"spec": spec, "devs": devs, "label": f"{level} image named -{scan}: blank img0.file_descriptor.{f['key']} among fields that all hold 4"})
+    # the spare areas again under other values of the short text fields that identify a format revision (a reader may
+    # interpret a blank area differently for another revision): image and leader file descriptors, volume descriptor
+    for spec in (SPEC15, SPEC11):
+        level = spec["level"]
+        for file, inst, lay_name in (("img0", "file_descriptor", "img.file_descriptor"), ("led", "file_descriptor", "led.file_descriptor"), ("vol", "volume_descriptor", "vol.volume_descriptor")):
+            lay = synth.layout(lay_name)
+            revs = [f for f in lay.fields if "revision" in f["name"] and f["kind"] == "A" and f["w"] <= 2]
+            spares = [f for f in lay.fields if padding_like(f["name"]) and alphabets.spare_contents(f)]
+            for letter in ("A", "B", "C", "Z", "1"):
+                rdevs = [dev(file, inst, f, letter.ljust(f["w"]).encode()) for f in revs]
+                cases.append({"spec": spec, "devs": rdevs, "label": f"{level} {file}.{inst} revision fields = {letter}"})
+                for j in range(3):
+                    sdevs = [dev(file, inst, f, alphabets.spare_contents(f)[j % len(alphabets.spare_contents(f))][1]) for f in spares]
+                    cases.append({"spec": spec, "devs": rdevs + sdevs, "label": f"{level} {file}.{inst} revision fields = {letter}, all spare areas rewritten (content {j})"})
     if tier == "thorough":
         cases += influence_cases()
     return cases
@@ -265,7 +279,7 @@ def execute(case):
 def run(res, tier, seed):
     res.rule = (
         "level 1.5 and 1.1 products: every nullable ASCII value field (not a count/length/code/flag/date-time) of every record"
-        " blanked alone, all of a record at once (+ all pairs within a record, thorough), and alone in a record whose numeric fields all hold the same value (35 / 0);" " the map-projection record under each of the LCC / MER / UPS / UTM designators; the image descriptor under -F<n> / -B<n> file names; every spare/blank/reserved area"
+        " blanked alone, all of a record at once (+ all pairs within a record, thorough), and alone in a record whose numeric fields all hold the same value (35 / 0);" " the map-projection record under each of the LCC / MER / UPS / UTM designators; the image descriptor under -F<n> / -B<n> file names; spare areas rewritten under revision letters A/B/C/Z/1; every spare/blank/reserved area"
         " (text, numeric, binary, length-dependent padding, ignored facility content) rewritten with each content of its character"
         " class, alone and all at once; thorough: one well-formed single-byte change for every byte of every leader value field"
         " and of both line-record prefixes. The whole tree (except attitude time, C17) is compared with the reference model."
